@@ -13,6 +13,11 @@ def check(files, truth, run, rundir):
     spec = truth["spec"]
     argv = run.get("orig_argv") or run["argv"]
     annotated = "--genedb" in argv
+    # documented MAPQ filters: --min_mapq (off by default), inconsistent alignments below --inconsistent_mapq_cutoff (5),
+    # alignments with 1-2 exons below --simple_alignments_mapq_cutoff (1).  An alignment at or above all of them passes every
+    # filter whatever its classification; below that it may or may not be reported
+    admit = max(int(T.opt(argv, "--min_mapq", 0) or 0), int(T.opt(argv, "--inconsistent_mapq_cutoff", 5)),
+                int(T.opt(argv, "--simple_alignments_mapq_cutoff", 1)))
     # per-experiment log statistics
     log = ""
     try:
@@ -50,10 +55,10 @@ def check(files, truth, run, rundir):
                 else:
                     cat["primary"] += 1
                 if not (fl & 2048) and not (fl & 4):
-                    if rec["mapq"] >= 60:
-                        ok = True
+                    if rec["mapq"] >= admit and not (fl & 256):
+                        ok = True       # the property speaks about primary alignments that pass the filters
                     else:
-                        free.add(nm)
+                        free.add(nm)    # secondary records and records below a cut-off may or may not be reported
             if ok:
                 must.add(nm)
             if len(r["records"]) == 1 and ok:
@@ -69,7 +74,7 @@ def check(files, truth, run, rundir):
             if n > 1:
                 problems.append("%scorrected_reads.bed: identical record %d times: %s" % (pre, n, l[:80]))
         for nm in sorted(must - bed_ids):
-            problems.append("%scorrected_reads.bed: read %s (mapped, primary, MAPQ 60) is not reported" % (pre, nm))
+            problems.append("%scorrected_reads.bed: read %s (mapped, primary, MAPQ >= %d) is not reported" % (pre, nm, admit))
         for nm in sorted(bed_ids - must - free):
             problems.append("%scorrected_reads.bed: read %s reported but has no admissible alignment in the input" % (pre, nm))
         known = set(workload.read_name(truth["reads"][i], spec) for i in members)
